@@ -49,6 +49,8 @@ def make_dir(rng, root):
                 mt = 1_500_000_000 + rng.randint(0, 10**8) + (rng.random() if rng.random() < 0.65 else 0)  # also whole seconds
                 if rng.random() < 0.06:
                     mt = -rng.randint(1, 10**8) - rng.choice([0, 0.5])  # last modified before 1970 (a negative time stamp is legal)
+                elif rng.random() < 0.05:
+                    mt = 0  # exactly the epoch: a time stamp like any other
                 os.utime(p, (mt, mt))
 
     fill(root, 0)
